@@ -155,8 +155,19 @@ def probe_cmp():
     return out
 
 
-def make_options(opts):
-    return [dns.edns.GenericOption(code, bytes(body)) for code, body in opts]
+def make_options(opts, typed=True):
+    """EDNS options from generic (code, body) pairs.  typed: as the library's own option classes (what a
+    parsed message holds, e.g. a forwarder re-rendering it); otherwise GenericOption (caller-supplied)."""
+    out = []
+    for code, body in opts:
+        o = None
+        if typed:
+            try:
+                o = dns.edns.option_from_wire(code, bytes(body), 0, len(body))
+            except Exception:
+                o = None
+        out.append(o if o is not None else dns.edns.GenericOption(code, bytes(body)))
+    return out
 
 
 def hdr_flags(h):
@@ -168,7 +179,7 @@ def opt_ttl(h):
     return ((h["rcode"] >> 4) << 24) | (e[1] << 16) | e[2]
 
 
-def low_level(script, rel, max_size=65535):
+def low_level(script, rel, max_size=65535, entry="rrset"):
     """step the real Renderer through the script; one event per call"""
     h = script[0]
     ev = []
@@ -181,7 +192,12 @@ def low_level(script, rel, max_size=65535):
             res, exc = call(r.add_question, mkname(s["name"], rel), s["type"], s["cls"])
             ev.append({"op": "q", "name": s["name"], "type": s["type"], "cls": s["cls"], "res": res, **state(r)})
         elif s["op"] == "rr":
-            res, exc = call(r.add_rrset, s["sec"], make_rrset(s, rel, zc), want_shuffle=False)
+            rs = make_rrset(s, rel, zc)
+            if entry == "rdataset" and len(rs) > 0 and rs.deleting is None:
+                # the other low-level entry point: owner name + plain Rdataset
+                res, exc = call(r.add_rdataset, s["sec"], rs.name, rs.to_rdataset(), want_shuffle=False)
+            else:
+                res, exc = call(r.add_rrset, s["sec"], rs, want_shuffle=False)
             e = dict(s)
             e.update(res=res, **state(r))
             ev.append(e)
@@ -391,8 +407,8 @@ def run_job(job):
         if _CMP is None:
             _CMP = probe_cmp()
         rel = bool(script[0]["origin"])
-        ev = low_level(script, rel)
-        if mode != "low":
+        ev = low_level(script, rel, entry="rdataset" if mode == "lowrds" else "rrset")
+        if mode not in ("low", "lowrds"):
             ev.append(high_level(script, rel, mode, variants))
         return {"tid": tid, "cmp": _CMP, "rel": rel, "hdr": script[0], "mode": mode, "ev": ev}
     except Exception as ex:
